@@ -119,6 +119,8 @@ def expand_literal(c, pol):
         return out
     if c[0] == "not":
         return expand_literal(c[1], not pol)
+    if c[0] == "truth":
+        return expand_literal(c[1], pol)  # bool(x) as a condition is x as a condition
     if c[0] == "sel":
         # the result of an inlined helper is one of its alternatives (exhaustive, each with its own path condition): the test holds exactly on
         # the chosen ones and fails exactly on the others
@@ -1122,6 +1124,10 @@ class SymEval:
                     v = _ite_under(v, st.guards)  # alternatives the path condition has already excluded are dropped
                 return v
             if e.id in self.modenv:
+                if e.id in _written_globals(self.ce.repo):
+                    # a module-level object some function of the package writes into (item store, mutating method, `global` rebinding): what it holds
+                    # when this code runs depends on history - not the value it had after import
+                    return self._ov(("global", e.id, self._new_uid()))
                 return self.lift(self.modenv[e.id]) if not isinstance(self.modenv[e.id], Unknown) else ("extern", e.id)
             if e.id in ("True", "False", "None"):
                 return const({"True": True, "False": False, "None": None}[e.id])
@@ -2187,6 +2193,41 @@ def _as_load(t):
     n = copy.copy(t)
     n.ctx = ast.Load()
     return n
+
+
+def _written_globals(repo) -> frozenset:
+    """Names bound at module level that some function of the package writes into after import: `N[...] = v`, `del N[...]`, `N[...] += v`,
+    `N.append(...)` and the other mutating methods, `N += v` / `N = v` under a `global N` - where N is not a local of that function."""
+    cached = getattr(repo, "_sa_written_globals", None)
+    if cached is not None:
+        return cached
+    modnames = set()
+    for m in repo.modules.values():
+        for st in m.tree.body:
+            for n in ast.walk(st) if not isinstance(st, (ast.FunctionDef, ast.AsyncFunctionDef, ast.ClassDef)) else ():
+                if isinstance(n, ast.Name) and isinstance(n.ctx, ast.Store):
+                    modnames.add(n.id)
+    out = set()
+    for f in repo.all_funcs():
+        declared = {x for n in ast.walk(f.node) if isinstance(n, ast.Global) for x in n.names}
+        local = {n.id for n in ast.walk(f.node) if isinstance(n, ast.Name) and isinstance(n.ctx, (ast.Store, ast.Del))} | set(f.params)
+        local -= declared
+        for n in ast.walk(f.node):
+            nm = None
+            if isinstance(n, ast.Subscript) and isinstance(n.ctx, (ast.Store, ast.Del)) and isinstance(n.value, ast.Name):
+                nm = n.value.id
+            elif isinstance(n, ast.Call) and isinstance(n.func, ast.Attribute) and isinstance(n.func.value, ast.Name) and n.func.attr in MUTATORS:
+                nm = n.func.value.id
+            elif isinstance(n, ast.Name) and isinstance(n.ctx, (ast.Store, ast.Del)) and n.id in declared:
+                nm = n.id
+            if nm is not None and nm in modnames and (nm not in local or nm in declared):
+                out.add(nm)
+    out = frozenset(out)
+    try:
+        repo._sa_written_globals = out
+    except Exception:  # noqa: BLE001
+        pass
+    return out
 
 
 def _assigned_names(stmts) -> set[str]:
